@@ -84,6 +84,7 @@ package otp
 //@ func generateOTP
 //@   property C12 C17
 //@   option summary callers use this contract, not the body
-//@   option trusted body not verified (hex formatting of 16 random bytes via fmt %x and a base64 Encode into a byte buffer)
-//@   option bounded otp_generate 2000 calls
+//@   -- proved on the body since round 11 (base64 Encode / EncodedLen are environment entries)
 //@   ensures hash_of_otp: result.2 == nil ==> result.1 == b64std(sha512(result.0))
+//@   ensures entropy_error_outcome: each Rand.Read(_) -> ?e => e != nil ==> (result.2 == e && result.0 == "" && result.1 == "")
+//@   ensures no_panic: !panics
